@@ -653,6 +653,7 @@ type world struct {
 	blocks []types.Block      // 1-based
 	hashes []types.HeaderHash // 0 = genesis
 	slots  []types.TimeSlot
+	states []types.StateKeyVals // posterior key-values of the blocks the scratch node accepted (nil otherwise)
 }
 
 func intsOf(v any) []int {
@@ -742,6 +743,7 @@ func build(c map[string]any) (*world, error) {
 				return nil, fmt.Errorf("blocks %d and %d coincide", y, x)
 			}
 		}
+		w.states = state
 		if good[p] && isOK(w.ckind[x]) {
 			if _, err := svc.ImportBlock(b); err != nil {
 				return nil, fmt.Errorf("scratch node rejects block %d (%s, slot %d on %d): %v", x, w.ckind[x], w.slots[x], p, err)
